@@ -97,7 +97,14 @@ def run(chk):
                               {'component': 'user-matcher', 'command': ln[:400000], 'how': 'echo "<command>" | _build/cargo/release/zh codec   (rencm <level> <window> <frames: blocks joined by +, block = data-hex:ll,off,ml;...>)'})
             continue
         for d, fh in zip(ds, w[1:]):
-            items.append((unhex(fh), d, 'user matcher, window %d' % window, ln))
+            f = unhex(fh)
+            items.append((f, d, 'user matcher, window %d' % window, ln))
+            h = framegen.parse_frame_header(f)
+            need = max(window, 131072)
+            if h and (h.get('window') or 0) < need and nbad[0] < 5:
+                nbad[0] += 1
+                chk.violation('declared window %s is smaller than the matcher window / the maximum block size (%d)' % (h.get('window'), need),
+                              {'component': 'user-matcher', 'command': ln[:400000], 'how': 'echo "<command>" | _build/cargo/release/zh codec'})
         nseq_max = max(nseq_max, max((b.count(';') + 1) for s in ln.split()[3].split('/') for b in s.split('+')))
     decode_checks(chk, 'user-matcher', [(f, d, l) for f, d, l, ln in items], nbad,
                   lambda i: {'command': items[i][3][:400000], 'how': 'echo "<command>" | _build/cargo/release/zh codec ; decode the printed frames'})
